@@ -455,7 +455,7 @@ class C12Family(Family):
 
     def cases(self, seed, tier, prop):
         n_typed = 1500 if tier == 'quick' else 30000
-        n_acc = 250 if tier == 'quick' else 5000
+        n_acc = 1000 if tier == 'quick' else 10000
         tnames = list(TYPES)
         for i in range(n_typed):
             rng = random.Random(f'c12t/{seed}/{i}')
@@ -467,10 +467,18 @@ class C12Family(Family):
             rng = random.Random(f'c12a/{seed}/{i}')
             k = rng.randint(0, 5)
             outcomes = []
+            mode = rng.choice(['mixed', 'mixed', 'mixed', 'dicts', 'lists'])
             for j in range(k):
                 x = rng.random()
                 name = f'h{j}' if rng.random() < 0.85 else 'dup'
-                if x < 0.12:
+                if mode == 'dicts' and x < 0.8:
+                    # several handlers returning small dicts over a tiny key/value space: shared keys with EQUAL values (1 == True
+                    # included), shared keys with different values, disjoint keys
+                    d = {rng.choice(['a', 'b']): rng.choice([0, 1, True, 'x']) for _ in range(rng.randint(1, 2))}
+                    outcomes.append({'k': 'val', 'v': {'j': d}, 'name': name, 'd': rng.choice([0, 0.01])})
+                elif mode == 'lists' and x < 0.8:
+                    outcomes.append({'k': 'val', 'v': {'j': [rng.randint(0, 2) for _ in range(rng.randint(0, 3))]}, 'name': name, 'sync': rng.random() < 0.3})
+                elif x < 0.12:
                     outcomes.append({'k': 'raise', 'v': rng.choice(['ValueError', 'KeyError', 'Custom']), 'd': rng.choice([0, 0.01]), 'name': name})
                 elif x < 0.18:
                     outcomes.append({'k': 'val', 'v': {'exc': rng.choice(['ValueError', 'Custom'])}, 'name': name})
